@@ -8,6 +8,7 @@ CONSTANTS
   MaxSend = 2
   MaxAdv = 2
   CacheMax = 16
+  Extras = {}
   Asks = {FALSE}
 INVARIANTS NeverDeliveredFromM
 CHECK_DEADLOCK FALSE
